@@ -425,12 +425,13 @@ struct EGioFile_st {int type; void*file;};
 /* ========================================================================= */
 int EGioWrite(EGioFile_t*file,const char*const string)
 {
-	char buf[EGio_BUFSIZE];
+	/* write the caller's string as it is: copying it through a fixed buffer
+	 * silently cut everything beyond EGio_BUFSIZE-1 characters (including the
+	 * newline of the line being written) */
+	const char *buf = string;
 	int len;
-	buf[EGio_BUFSIZE-1] = 0;
-	snprintf(buf,EGio_BUFSIZE,"%s",string);
 	len = strlen(buf);
-	if(len<=0 || len >= EGio_BUFSIZE || buf[EGio_BUFSIZE-1]!=0) return 0;
+	if(len<=0) return 0;
 	switch(file->type)
 	{
 		case EGIO_PLAIN:
@@ -444,7 +445,7 @@ int EGioWrite(EGioFile_t*file,const char*const string)
 #endif
 		case EGIO_BZLIB:
 #ifdef HAVE_LIBBZ2
-			return BZ2_bzwrite((BZFILE*)(file->file),buf,len);
+			return BZ2_bzwrite((BZFILE*)(file->file),(void*)buf,len);
 #else
 			QSlog("no bzip2 support");
 			return 0;
